@@ -27,7 +27,8 @@ Fixpoint split_max (n : nat) (l : bytes) : list bytes :=
 Definition nth_tok (n : nat) (l : bytes) : outcome bytes :=
   of_option IndexError (nth_error (split_ws l) n).
 
-(* str.strip() of a path decoded from UTF-8 with surrogateescape, seen on the bytes:
+(* (used by clean_path_legacy only)
+   str.strip() of a path decoded from UTF-8 with surrogateescape, seen on the bytes:
    str whitespace = ASCII 9-13, 28-31, 32 and the code points U+0085 U+00A0 U+1680
    U+2000-200A U+2028 U+2029 U+202F U+205F U+3000.  A complete well-formed sequence
    always decodes to its code point whatever precedes it (lead bytes are not
@@ -233,7 +234,15 @@ Definition map_keys : list bytes :=
 Definition deleted_sfx : bytes := bs " (deleted)".
 Definition anon_path : bytes := bs "[anon]".
 
+(* path = decode(hfields[5]); the " (deleted)" marker is cut when no file of that name
+   exists.  (Since /repo commit c15178c the name is no longer .strip()ped.) *)
 Definition clean_path (exists_ : bytes -> bool) (path : bytes) : bytes :=
+  match path with
+  | [] => anon_path
+  | _ => if suffixb deleted_sfx path && negb (exists_ path) then firstn (length path - 10) path else path
+  end.
+(* the code before commit c15178c: path = path.strip() on the decoded str first *)
+Definition clean_path_legacy (exists_ : bytes -> bool) (path : bytes) : bytes :=
   match path with
   | [] => anon_path
   | _ =>
